@@ -174,6 +174,24 @@ fn main() {
         sv::model::exec::CompileOutcome::Panicked(e) => println!("panicked: {:?}", e),
       }
     }
+    "runart" => {
+      // dev: runart <artifact.json> : compile and run both backends with timing
+      let art: serde_json::Value = serde_json::from_str(&std::fs::read_to_string(&args[1]).unwrap()).unwrap();
+      let art = art.get("artifact").cloned().unwrap_or(art);
+      let (mods, entry) = sv::props::run_common::mods_of(&art);
+      let r = sv::props::run_common::reference_run(&mods, &entry, 300_000);
+      println!("reference: {:?} steps {:?}", r.as_ref().map(|r| sv::props::run_common::end_str(&r.end)), r.as_ref().map(|r| r.steps));
+      if let sv::model::exec::CompileOutcome::Ok(c) = sv::model::exec::compile(&mods, &entry) {
+        sv::props::run_common::with_node(|n| {
+          let t1 = std::time::Instant::now();
+          let w = n.run_wasm(&c.wasm, &c.loader, &c.main, std::time::Duration::from_secs(10));
+          println!("wasm: {} {:?} {} lines in {:?}", w.end, w.message, w.lines.len(), t1.elapsed());
+          let t2 = std::time::Instant::now();
+          let t = n.run_ts(&c.ts_code, std::time::Duration::from_secs(10));
+          println!("ts: {} {:?} {} lines in {:?}", t.end, t.message, t.lines.len(), t2.elapsed());
+        });
+      }
+    }
     "list" => {
       for p in sv::props::all() {
         println!("{}", p.id());
